@@ -21,6 +21,11 @@ def step (r : Repo) (ws : List String) : Repo × String :=
     match id.toNat? with
     | some id => let (x, r') := r.getEpoch id; (r', if x.isSome then "some" else "none")
     | none => (r, "bad-op")
+  | ["repo.psk", id] =>
+    -- `GroupStateRepository::resumption_secret` for the own group (read-only)
+    match id.toNat? with
+    | some id => (r, if (r.resumptionSecret id).isSome then "some" else "none")
+    | none => (r, "bad-op")
   | ["repo.write"] =>
     let (res, r') := r.write false false
     (r', match res with | .ok _ => "ok" | .error _ => "err")
